@@ -11,18 +11,20 @@ FILTER=$(python3 -c "import json,sys; m=json.load(open('$D/meta.json')); print(m
 echo "demo_cmd: $FILTER"
 git apply "$D/demo.diff" || { echo "CONFIRM-FAIL demo.diff does not apply"; exit 1; }
 echo "--- unchanged tree + demo"
-unshare -n sh -c "ip link set lo up; $FILTER" > /tmp/confirm_a.log 2>&1; A=$?
-tail -3 /tmp/confirm_a.log
+unshare -n sh -c "ip link set lo up; $FILTER" > /tmp/confirm_a_$$.log 2>&1; A=$?
+tail -3 /tmp/confirm_a_$$.log
 git apply "$D/patch.diff" || { echo "CONFIRM-FAIL patch.diff does not apply"; git checkout -q -- .; git clean -fdq -e SEEDED -e target; exit 1; }
 echo "--- patched tree + demo"
-unshare -n sh -c "ip link set lo up; $FILTER" > /tmp/confirm_b.log 2>&1; B=$?
-grep -E "test result|panicked|FAILED" /tmp/confirm_b.log | head -5
+unshare -n sh -c "ip link set lo up; $FILTER" > /tmp/confirm_b_$$.log 2>&1; B=$?
+grep -E "test result|panicked|FAILED" /tmp/confirm_b_$$.log | head -5
 # existing suite with the patch only
 git checkout -q -- . ; git clean -fdq -e SEEDED -e target
 git apply "$D/patch.diff"
 echo "--- patched tree, existing suite"
-unshare -n sh -c "ip link set lo up; cargo test --offline --no-fail-fast" > /tmp/confirm_c.log 2>&1; C=$?
-grep -E "^test result|FAILED|failed" /tmp/confirm_c.log | head -12
+unshare -n sh -c "ip link set lo up; cargo test --offline --no-fail-fast" > /tmp/confirm_c_$$.log 2>&1; C=$?
+grep -E "^test result|FAILED|failed" /tmp/confirm_c_$$.log | head -12
+echo "SUITE-FAILING: $(grep -E '^test .* FAILED$' /tmp/confirm_c_$$.log | sed 's/^test //; s/ \.\.\. FAILED$//' | sort -u | tr '\n' ';')"
 git checkout -q -- . ; git clean -fdq -e SEEDED -e target
+rm -f /tmp/confirm_a_$$.log /tmp/confirm_b_$$.log /tmp/confirm_c_$$.log
 echo "RESULT demo_on_unchanged_exit=$A demo_on_patched_exit=$B suite_on_patched_exit=$C"
 if [ $A -eq 0 ] && [ $B -ne 0 ]; then echo "CONFIRMED (suite exit $C: check the failures against the known-flaky list)"; else echo "CONFIRM-FAIL"; fi
